@@ -160,6 +160,9 @@ type FailoverController struct {
 	// cancelled, so that a callback which had already fired and was waiting for mu when
 	// its timer was stopped can tell that it is stale (Timer.Stop cannot recall it).
 	timerGen uint64
+	// roleEpoch counts committed role changes. An execution whose role-change callback ran
+	// while another execution committed must not commit on top of it.
+	roleEpoch uint64
 
 	// Statistics
 	failoversInitiated uint64
@@ -551,6 +554,7 @@ func (c *FailoverController) executeFailover(reason string, timerGen uint64) {
 
 	c.mu.Lock()
 	c.currentRole = newRole
+	c.roleEpoch++
 	c.state = FailoverStateComplete
 	c.lastRoleChange = time.Now()
 	// The partner_up of a partner that recovered while the role-change callback ran was
@@ -655,6 +659,7 @@ func (c *FailoverController) executeFailback(reason string, timerGen uint64) {
 		c.mu.Unlock()
 		return
 	}
+	epoch := c.roleEpoch
 	c.mu.Unlock()
 
 	// Call role change callback
@@ -679,13 +684,15 @@ func (c *FailoverController) executeFailback(reason string, timerGen uint64) {
 	}
 
 	c.mu.Lock()
-	if c.currentRole != oldRole {
-		// Another failback (started after this one was cancelled and re-armed while its
-		// callback ran) has already committed; the state now belongs to whatever followed.
+	if c.roleEpoch != epoch {
+		// Another execution (a failback started after this one was cancelled and re-armed
+		// while its callback ran, possibly followed by a new failover) has committed since
+		// this callback was invoked; the state now belongs to whatever followed.
 		c.mu.Unlock()
 		return
 	}
 	c.currentRole = newRole
+	c.roleEpoch++
 	c.state = FailoverStateNormal
 	c.lastRoleChange = time.Now()
 	// The role-change callback ran without the lock. If the partner failed meanwhile, its
